@@ -359,7 +359,7 @@ fn scenario_wl() {
             rng.fill(&mut data[..]);
             match kind {
                 0..=3 => {
-                    let shape = if storm && tid == 0 { Shape::Blocks } else { sim::registry::SHAPES[rng.gen_range(0..6usize)] };
+                    let shape = if storm && tid == 0 { Shape::Blocks } else { sim::registry::SHAPES[rng.gen_range(0..sim::registry::SHAPES.len())] };
                     let data = if shape.single() { data[..t.block].to_vec() } else { data };
                     let want = wl_model(t, &key, d, &data);
                     prog.push(WOp::Call { inst: i, dir: d, shape, data, want });
